@@ -767,7 +767,10 @@ class PDFDocument:
             # If there's an encryption info, remember it.
             if "Encrypt" in trailer:
                 if "ID" in trailer:
-                    id_value = list_value(trailer["ID"])
+                    # two byte strings; a damaged entry counts as empty
+                    id_value = [str_value(x) for x in list_value(trailer["ID"])]
+                    if not id_value:
+                        id_value = [b"", b""]
                 else:
                     # Some documents may not have a /ID, use two empty
                     # byte strings instead. Solves
